@@ -43,8 +43,17 @@ class Opaque:
 
 
 class Closure:
-    def __init__(self, node):
+    def __init__(self, node, defaults=()):
         self.node = node
+        self.defaults = list(defaults)      # values of the default expressions, evaluated where the `def` stands
+
+
+class Helper(Closure):
+    """a plain module-level function (no decorator): called by value, its body sees the module's names only"""
+
+    def __init__(self, node, defaults, module_env):
+        super().__init__(node, defaults)
+        self.module_env = module_env
 
 
 class Vec(list):
@@ -120,7 +129,10 @@ class Exec(pyexpr.ExprTranslator):
                     raise Untranslatable(f"subscript {ast.unparse(n)} out of range")
             raise Untranslatable(f"subscript {ast.unparse(n)}")
         if isinstance(n, ast.Call) and isinstance(n.func, ast.Name) and isinstance(self.env.get(n.func.id), Closure):
-            v = self.inline(self.env[n.func.id], [self.value(a) for a in n.args])
+            if any(kw.arg is None for kw in n.keywords) or any(isinstance(a, ast.Starred) for a in n.args):
+                raise Untranslatable(f"* / ** in the call of {n.func.id}")
+            v = self.inline(self.env[n.func.id], [self.value(a) for a in n.args],
+                            {kw.arg: self.value(kw.value) for kw in n.keywords})
             if isinstance(v, tuple):
                 return v
             raise Untranslatable(f"call of {n.func.id} does not give a scalar")
@@ -212,6 +224,8 @@ class Exec(pyexpr.ExprTranslator):
         params, keys = self.solver_keys[name]
         args = {}
         for i, a in enumerate(call.args):
+            if i >= len(params) or isinstance(a, ast.Starred):
+                raise Untranslatable(f"positional argument #{i} of {name} has no parameter to bind to")
             args[params[i]] = self.value(a)
         for kw in call.keywords:
             if kw.arg is None:
@@ -224,17 +238,32 @@ class Exec(pyexpr.ExprTranslator):
         return SolverDict({k: ("var", f"sol.{k}") for k in keys})
 
     # ---- closures -------------------------------------------------------------------------------------
-    def inline(self, clo, args):
+    def inline(self, clo, args, kwargs=None):
         fn = clo.node
-        if fn.args.vararg or fn.args.kwarg or fn.args.kwonlyargs or fn.args.defaults or len(fn.args.args) != len(args):
+        kwargs = kwargs or {}
+        names = [p.arg for p in fn.args.args]
+        if fn.args.vararg or fn.args.kwarg or fn.args.kwonlyargs or fn.args.posonlyargs or len(args) > len(names) \
+                or len(clo.defaults) != len(fn.args.defaults):
+            raise Untranslatable(f"closure {fn.name}: unsupported signature / arity")
+        # python's binding rules: positional, then keywords, then the defaults of the trailing parameters
+        bound = dict(zip(names, args))
+        for k, v in kwargs.items():
+            if k not in names or k in bound:
+                raise Untranslatable(f"closure {fn.name}: keyword argument {k} does not bind")
+            bound[k] = v
+        for p, d in zip(names[len(names) - len(clo.defaults):], clo.defaults):
+            bound.setdefault(p, d)
+        if len(bound) != len(names):
             raise Untranslatable(f"closure {fn.name}: unsupported signature / arity")
         self.depth += 1
         if self.depth > 8:
             raise Untranslatable("closure nesting too deep")
         saved = self.env
-        self.env = dict(saved)           # late binding: the closure sees the caller's *current* bindings
-        for p, a in zip(fn.args.args, args):
-            self.env[p.arg] = a
+        if isinstance(clo, Helper):
+            self.env = dict(clo.module_env)  # a module-level function does not see the caller's locals
+        else:
+            self.env = dict(saved)           # late binding: the closure sees the caller's *current* bindings
+        self.env.update(bound)
         try:
             return self.block_value(fn.body)
         finally:
@@ -300,7 +329,7 @@ class Exec(pyexpr.ExprTranslator):
             if isinstance(st, ast.Expr) and isinstance(st.value, ast.Constant):
                 continue
             if isinstance(st, ast.FunctionDef):
-                self.env[st.name] = Closure(st)
+                self.env[st.name] = Closure(st, [self.value(d) for d in st.args.defaults])
                 continue
             if isinstance(st, ast.Assign) and len(st.targets) == 1:
                 t = st.targets[0]
@@ -375,8 +404,11 @@ class Exec(pyexpr.ExprTranslator):
         return out
 
 
-def module_constants(tree):
-    """module-level `NAME = <expr>` with a translatable right-hand side (MIN_ANGLE, MAX_ANGLE)"""
+def module_constants(tree, skip=()):
+    """module-level `NAME = <expr>` with a translatable right-hand side (MIN_ANGLE, MAX_ANGLE) and the module's plain
+    helper functions (`def` without decorator, not one of `skip`): a call of such a helper from a solver, a closure or a
+    constructor is inlined (arguments bound by position / keyword / default, body executed in the module's scope), so that
+    moving a formula into a shared helper neither opens a translator gap nor hides what is handed to it."""
     ex = Exec({})
     for st in tree.body:
         if isinstance(st, ast.Assign) and len(st.targets) == 1 and isinstance(st.targets[0], ast.Name) \
@@ -384,7 +416,12 @@ def module_constants(tree):
             v = ex.value(st.value)
             if isinstance(v, tuple):
                 ex.env[st.targets[0].id] = v
-    return ex.env
+    env = ex.env
+    for st in tree.body:
+        if isinstance(st, ast.FunctionDef) and not st.decorator_list and st.name not in skip:
+            # defaults are evaluated when the `def` is executed; the body looks names up when it is called: `env` is shared
+            env[st.name] = Helper(st, [ex.value(d) for d in st.args.defaults], env)
+    return env
 
 
 def run_pattern(fn, pattern, optional, solver_keys=None, consts=None):
@@ -514,7 +551,7 @@ def extract_solvers(repo=None):
     """{solver: {"params", "optional", "keys", "canonical": {name: Outcome}, "table": [(pattern_str, label)], "gaps"}}"""
     tree = _parse("generic_elongation_solvers.py", repo)
     fns = {n.name: n for n in tree.body if isinstance(n, ast.FunctionDef)}
-    consts = module_constants(tree)
+    consts = module_constants(tree, skip=SOLVERS)
     out = {}
     for sname, patf in SOLVERS.items():
         info = {"canonical": {}, "table": [], "gaps": [], "params": [], "optional": [], "keys": []}
@@ -579,9 +616,10 @@ def extract_classes(solvers, repo=None):
         opt = optional_params(fn)
         info["optional"] = opt
         info["params"] = [a.arg for a in fn.args.args if a.arg != "self"]
+        consts = module_constants(tree, skip=solver_keys)
         for pat in all_patterns(opt):
             try:
-                oc = run_pattern(fn, pat, opt, solver_keys)
+                oc = run_pattern(fn, pat, opt, solver_keys, consts)
             except Untranslatable as ex:
                 info["gaps"].append(f"{cname}.__init__ [{pattern_str(opt, pat)}]: {ex}")
                 continue
